@@ -95,6 +95,44 @@ def check_addressing(ctx, where, r, msgterm, slot):
     return b
 
 
+def first_declaration_wins(ctx, fi):
+    """getInterfaces() lists the interfaces most-derived class first; a
+    subclass may declare an interface under the name a base class already
+    uses (to add members, to change a signature).  The dispatcher therefore
+    takes the FIRST interface that matches.  Collecting the interfaces into
+    a mapping keyed by name ({x.name: x for x in o.getInterfaces()},
+    dict(...) of pairs) keeps the LAST one: members the subclass added are
+    answered UnknownMethod, changed signatures are checked against the
+    base's."""
+    prog = ctx.prog
+    bad = []
+    for node in prog._iter_scope(fi.node):
+        comp = None
+        if isinstance(node, ast.DictComp):
+            comp = node
+            key = node.key
+        elif isinstance(node, ast.Call) and isinstance(node.func, ast.Name) \
+                and node.func.id == 'dict' and len(node.args) == 1 and \
+                isinstance(node.args[0], (ast.GeneratorExp, ast.ListComp)) \
+                and isinstance(node.args[0].elt, ast.Tuple) and \
+                len(node.args[0].elt.elts) == 2:
+            comp = node.args[0]
+            key = node.args[0].elt.elts[0]
+        if comp is None:
+            continue
+        over_ifaces = any(
+            isinstance(x, ast.Attribute) and x.attr == 'getInterfaces'
+            for g in comp.generators for x in ast.walk(g.iter))
+        by_name = isinstance(key, ast.Attribute) and key.attr == 'name'
+        if over_ifaces and by_name:
+            bad.append(node.lineno)
+    ctx.ob('C10.D6', fi.qualname, 'first-declaration-wins', not bad,
+           'the interfaces of the object are collected into a mapping keyed '
+           'by name (line %s): of two declarations under one name the LAST '
+           '(the base class\'s) is used, the dispatcher must use the first'
+           % bad, nontrivial=bool(bad))
+
+
 def run(ctx):
     prog = ctx.prog
     fi = prog.func(Q)
@@ -386,6 +424,7 @@ def run(ctx):
     from . import c03
     sub = _Sub(ctx, 'C10.D5')
     c03.reader_rules(sub, None)
+    first_declaration_wins(ctx, fi)
     from .common import class_memo_not_inherited
     class_memo_not_inherited(
         ctx, 'C10.D6', ('objects',),
